@@ -50,9 +50,9 @@ RAW_SCRIPTS = {
                       "    dup.append(7)\n    mon.write(dup[299] + dup[300])\n    mon.write(last(dup))\n    trace = [0]\n    for k in range(259):\n        trace.append(k)\n"
                       "    mon.write(trace[259] + trace[100])\n    trace.remove(0)\n    mon.write(trace[-1] + trace[255])\n    both = trace\n    both.append(5)\n    mon.write(both[259] + both[-1])\n",
     # a helper that only reads its list parameter while it re-binds the global the caller passed: the parameter keeps the OLD list
-    "raw-param-outlives-global": "hist = [1, 2, 3, 4]\ndef peek(xs, n):\n    global hist\n    hist = [9]\n    return xs[n - 1]\ndef shrink_then_sum(xs):\n    global hist\n"
-                                 "    hist = [7, 7]\n    t = 0\n    for q in range(len(xs)):\n        t += xs[q]\n    return t\nwhile True:\n    hist = [1, 2, 3, 4]\n"
-                                 "    mon.write(peek(hist, 4))\n    mon.write(hist[0])\n    hist = [5, 6, 7, 8]\n    mon.write(shrink_then_sum(hist))\n    mon.write(hist[1])\n",
+    "raw-param-outlives-global": "hist = [1, 2, 3, 4]\ndef peek(xs, n):\n    global hist\n    hist = [9, 9, 9, 9]\n    return xs[n - 1]\ndef rebind_then_sum(xs):\n    global hist\n"
+                                 "    hist = [7, 7, 7, 7]\n    t = 0\n    for q in range(len(xs)):\n        t += xs[q]\n    return t\nwhile True:\n    hist = [1, 2, 3, 4]\n"
+                                 "    mon.write(peek(hist, 4))\n    mon.write(hist[0])\n    hist = [5, 6, 7, 8]\n    mon.write(rebind_then_sum(hist))\n    mon.write(hist[1])\n",
     "raw-reassign-then-grow-and-shrink": "buf = [4, 5, 6]\nwhile True:\n    buf = [9, 8, 7]\n    buf.append(1)\n    buf.append(2)\n    mon.write(buf[0] + buf[4])\n    buf.remove(1)\n    buf.remove(2)\n",
 }
 
@@ -74,6 +74,7 @@ def raw_part(run) -> None:
         run.count("raw:" + name)
         if r["transpile"] != "accept" or r.get("compile") != "ok":
             run.cov.setdefault("raw_not_run", []).append(f"{name}: {r['transpile']} {r.get('msg') or ''} {r.get('compile') or ''}")
+            run.notes.append(f"raw list script {name} did not run ({r['transpile']} {r.get('msg') or ''} {r.get('compile') or ''}): nothing was judged on it")
             continue
         got = [e.get("v") for e in r.get("events", []) if e.get("e") == "w"]
         want = [t["toks"][0]["n"] for t in py.get("ev", []) if t.get("e") == "w" and t.get("toks")] if isinstance(py, dict) else None
